@@ -3,9 +3,13 @@ package main
 // Timed-script executor for ants.Pool (properties C07, C08). Built with
 // -tags "verif faketime": the clock is virtual, every stamp below is deterministic.
 //
-// case:  ants <N> <task> <task> ...
-// task:  <send>,<T>,<R>,<discard>,<onerr>|<dur>:<honours>:<val>:<err>|...   (one behaviour per attempt;
-//        the last one is reused if the handler is invoked more often)
+// case:  ants <N> [pc=<t>] <task> <task> ...
+//        pc=<t>: the pool is built with WithContextBuilder(func() context.Context { return parent }) (one shared
+//        cancellable parent for every dispatcher goroutine) and the script cancels parent at the virtual
+//        instant t (t < 0: never cancelled by the script)
+// task:  <send>,<T>,<R>,<discard>,<onerr>|<dur>:<honours>:<val>:<err>[:<cancels>]|...   (one behaviour per attempt;
+//        the last one is reused if the handler is invoked more often); cancels=1: the handler cancels the
+//        dispatchers' parent context right before it returns (implies a pool built with WithContextBuilder)
 //        times in ns relative to the scenario start; val -1 = nil result; err 0 = nil error, k>0 = error "E<k>"
 // reply: N=<n>;<event>;<event>;...   events in execution order (appended under one mutex):
 //   S,k,t            Send called            SR,k,t           Send returned
@@ -14,6 +18,8 @@ package main
 //   OE,k,t,e         error callback          G,k,t,v,e       first Get2 returned
 //   GG,k,t,v,e       a second Get2 at the end of the scenario
 //   HANG,k           Get2 had not returned at the horizon
+//   PC,t,k,n         parent context about to be cancelled (logged BEFORE cancel() is called, so every effect
+//                    of the cancellation is logged after it); k = -1: by the script, else by the n-th handler invocation of task k
 //   END,t,run,hs,he  horizon reached: running handlers, #starts, #ends
 
 import (
@@ -34,6 +40,7 @@ type behaviour struct {
 	honours bool
 	val     int
 	err     int
+	cancels bool
 }
 
 type taskSpec struct {
@@ -63,10 +70,10 @@ func parseTask(tok string) taskSpec {
 		discard: h[3] == "1", onerr: h[4] == "1"}
 	for _, b := range parts[1:] {
 		f := strings.Split(b, ":")
-		if len(f) != 4 {
+		if len(f) != 4 && len(f) != 5 {
 			panic("bad behaviour " + b)
 		}
-		ts.behs = append(ts.behs, behaviour{time.Duration(atoi64(f[0])), f[1] == "1", int(atoi64(f[2])), int(atoi64(f[3]))})
+		ts.behs = append(ts.behs, behaviour{time.Duration(atoi64(f[0])), f[1] == "1", int(atoi64(f[2])), int(atoi64(f[3])), len(f) == 5 && f[4] == "1"})
 	}
 	if len(ts.behs) == 0 {
 		panic("task without behaviour")
@@ -120,9 +127,22 @@ func showVal(v any) string {
 
 func runAnts(toks []string) string {
 	n := int(atoi64(toks[1]))
-	specs := make([]taskSpec, 0, len(toks)-2)
-	for _, t := range toks[2:] {
-		specs = append(specs, parseTask(t))
+	rest := toks[2:]
+	withParent, pcAt := false, time.Duration(-1)
+	if len(rest) > 0 && strings.HasPrefix(rest[0], "pc=") {
+		withParent = true
+		pcAt = time.Duration(atoi64(rest[0][3:]))
+		rest = rest[1:]
+	}
+	specs := make([]taskSpec, 0, len(rest))
+	for _, t := range rest {
+		sp := parseTask(t)
+		for _, b := range sp.behs {
+			if b.cancels {
+				withParent = true
+			}
+		}
+		specs = append(specs, sp)
 	}
 	var mu sync.Mutex
 	var sb strings.Builder
@@ -138,8 +158,19 @@ func runAnts(toks []string) string {
 	}
 	now := func() int64 { return int64(time.Since(base)) }
 
-	var pool = ants.NewPool(ants.WithSize(n))
+	var pool ants.Pool
+	var cancelParent context.CancelFunc = func() {}
+	if withParent {
+		var parent context.Context
+		parent, cancelParent = context.WithCancel(context.Background())
+		pool = ants.NewPool(ants.WithSize(n), ants.WithContextBuilder(func() context.Context { return parent }))
+	} else {
+		pool = ants.NewPool(ants.WithSize(n))
+	}
 	var horizon time.Duration
+	if pcAt > horizon {
+		horizon = pcAt
+	}
 	var sumDur time.Duration
 	for _, sp := range specs {
 		if sp.send > horizon {
@@ -204,6 +235,10 @@ func runAnts(toks []string) string {
 			} else {
 				time.Sleep(b.dur)
 			}
+			if b.cancels {
+				logf(func() string { return fmt.Sprintf("PC,%d,%d,%d", now(), k, idx) })
+				cancelParent()
+			}
 			logf(func() string {
 				running--
 				he++
@@ -227,6 +262,15 @@ func runAnts(toks []string) string {
 			v, e := t.Get2()
 			logf(func() string { returned[k] = true; return fmt.Sprintf("G,%d,%d,%s,%s", k, now(), showVal(v), showErr(e)) })
 		}(pool)
+	}
+	if pcAt >= 0 {
+		wg.Add(1)
+		go func() {
+			defer wg.Done()
+			time.Sleep(pcAt - time.Since(base))
+			logf(func() string { return fmt.Sprintf("PC,%d,-1,0", now()) })
+			cancelParent()
+		}()
 	}
 	allDone := make(chan struct{})
 	go func() { wg.Wait(); close(allDone) }()
